@@ -137,6 +137,7 @@ impl Handler {
 impl Svc for Handler {
     async fn unary(&self, r: Request<Vec<u8>>) -> Result<Response<Vec<u8>>, Status> {
         self.log_req(r.metadata(), vec![r.get_ref().clone()], None);
+        if let Some(ms) = self.script["latency_ms"].as_u64() { tokio::time::sleep(std::time::Duration::from_millis(ms)).await; self.log.ev(json!({"e":"srv_done"})); }
         self.single()
     }
     async fn cstream(&self, r: Request<Streaming<Vec<u8>>>) -> Result<Response<Vec<u8>>, Status> {
@@ -204,6 +205,9 @@ where
     let tmo = c["timeout_ms"].as_u64();
     macro_rules! mkreq { ($payload:expr) => {{ let mut r = Request::new($payload); *r.metadata_mut() = meta.clone(); if let Some(t) = tmo { r.set_timeout(std::time::Duration::from_millis(t)); } r }}; }
     let shape = stim["shape"].as_str().unwrap_or("unary");
+    let t0 = tokio::time::Instant::now();
+    let log_t = log.clone();
+    let _timing = Defer(Some(move || log_t.ev(json!({"e":"timing","elapsed_ms": t0.elapsed().as_millis() as u64}))));
     match shape {
         "unary" | "cstream" => {
             let r = if shape == "unary" { cl.unary(mkreq!(msgs.first().cloned().unwrap_or_default())).await }
@@ -232,6 +236,9 @@ where
     }
 }
 
+struct Defer<F: FnOnce()>(Option<F>);
+impl<F: FnOnce()> Drop for Defer<F> { fn drop(&mut self) { if let Some(f) = self.0.take() { f() } } }
+
 async fn run_client_inproc(stim: &Value, log: &Rec) {
     let svc = build_server(stim, log);
     let cap = Capture { inner: stack_of(svc), log: log.clone() };
@@ -244,9 +251,13 @@ async fn run_client_h2(stim: &Value, log: &Rec) {
         sh["wq"].as_u64().unwrap_or(65536) as usize, sh["pend"].as_u64().unwrap_or(0) as usize);
     let svc = build_server(stim, log);
     let incoming = tokio_stream::StreamExt::chain(tokio_stream::once(Ok::<_, std::io::Error>(s_io)), tokio_stream::pending());
-    let srv = tokio::spawn(async move { let _ = tonic::transport::Server::builder().add_service(svc).serve_with_incoming(incoming).await; });
+    let mut sb = tonic::transport::Server::builder();
+    if let Some(ms) = stim["server"]["timeout_ms"].as_u64() { sb = sb.timeout(std::time::Duration::from_millis(ms)); }
+    let srv = tokio::spawn(async move { let _ = sb.add_service(svc).serve_with_incoming(incoming).await; });
     let mut c = Some(c_io);
-    let ch = tonic::transport::Endpoint::from_static("http://lab.test")
+    let mut ep = tonic::transport::Endpoint::from_static("http://lab.test");
+    if let Some(ms) = stim["client"]["endpoint_timeout_ms"].as_u64() { ep = ep.timeout(std::time::Duration::from_millis(ms)); }
+    let ch = ep
         .connect_with_connector(tower::service_fn(move |_: http::Uri| { let c = c.take(); async move { c.map(hyper_util::rt::TokioIo::new).ok_or_else(|| std::io::Error::other("no more connections")) } }))
         .await;
     match ch {
